@@ -1,3 +1,4 @@
+import ast
 from typing import Iterator
 
 from .._change import Change
@@ -51,6 +52,7 @@ class MinMaxValue(GenericValue):
             flag = "trim"
         elif (
             self._ast_node is not None
+            and not isinstance(self._ast_node, ast.JoinedStr)
             and self._file._token_of_node(self._ast_node) != new_token
         ):
             flag = "update"
